@@ -236,6 +236,9 @@ int main(int argc, char** argv) {
     for (size_t i = 0; i < S["cells"].size(); i++) {
         const vj::value& C = S["cells"][i];
         shapes::tmesh m = shapes::sphere((int)C["level"].i());
+        // optional generic shape: an ellipsoid with deterministically displaced nodes (no symmetry plane through nodes, no equal edges)
+        if (C.has("jitter")) for (size_t q = 0; q < m.pos.size(); q++) m.pos[q] += C["jitter"].d() * std::sin(1.0 + 12.9898 * (double)q);
+        if (C.has("stretch")) { auto st = C["stretch"].dvec(); for (size_t q = 0; q < m.pos.size(); q++) m.pos[q] *= st[q % 3]; }
         auto ctr = C["c"].dvec();
         shapes::transform(m, C["R"].d(), ctr[0], ctr[1], ctr[2]);
         auto ct = std::make_shared<cell_type_parameters>();
